@@ -199,22 +199,43 @@ pub fn check_arena(s: &Snap, info: &StructInfo) -> Result<(), String> {
     Ok(())
 }
 
+/// Bounds-checked slot access for the reach classifiers: a corrupted snapshot
+/// (seeded defects!) must never make the harness itself panic or loop.
+fn slot(s: &Snap, i: u32) -> Option<&Slot> {
+    if i == E {
+        None
+    } else {
+        s.slots.get(i as usize)
+    }
+}
+
 /// Which removal path a deletion of slot `idx` is about to take (reach measure).
 pub fn classify_delete(s: &Snap, idx: u32) -> &'static str {
-    let nd = &s.slots[idx as usize];
+    let nd = match slot(s, idx) {
+        Some(n) => n,
+        None => return "other",
+    };
     let mut d = idx;
     let mut two = "";
-    if nd.left != E && nd.right != E {
+    if slot(s, nd.left).is_some() && slot(s, nd.right).is_some() {
         let mut c = nd.right;
         let mut deep = false;
-        while s.slots[c as usize].left != E {
-            c = s.slots[c as usize].left;
+        let mut guard = 0usize;
+        while let Some(cn) = slot(s, c) {
+            if slot(s, cn.left).is_none() || guard > s.slots.len() {
+                break;
+            }
+            c = cn.left;
             deep = true;
+            guard += 1;
         }
         d = c;
         two = if deep { "succ_deep" } else { "succ_child" };
     }
-    let dn = &s.slots[d as usize];
+    let dn = match slot(s, d) {
+        Some(n) => n,
+        None => return "other",
+    };
     let base: &'static str = if dn.left != E || dn.right != E {
         "one_child"
     } else if dn.parent == E {
@@ -223,26 +244,42 @@ pub fn classify_delete(s: &Snap, idx: u32) -> &'static str {
         "red_leaf"
     } else {
         // black leaf: double-black repair; classify the first case met
-        let p = &s.slots[dn.parent as usize];
-        let is_left = p.left == d;
-        let sib = if is_left { p.right } else { p.left };
-        if sib == E {
-            "black_leaf_no_sibling(!)"
-        } else {
-            let sn = &s.slots[sib as usize];
-            let red = |i: u32| i != E && s.slots[i as usize].red;
-            if sn.red {
-                if is_left { "case2_red_sibling_L" } else { "case2_red_sibling_R" }
-            } else if !red(sn.left) && !red(sn.right) {
-                if p.red { "case3_black_sib_red_parent" } else { "case4_black_sib_black_parent" }
-            } else {
-                let far = if is_left { sn.right } else { sn.left };
-                if red(far) {
-                    if is_left { "case6_far_red_L" } else { "case6_far_red_R" }
-                } else if is_left {
-                    "case5_near_red_L"
-                } else {
-                    "case5_near_red_R"
+        match slot(s, dn.parent) {
+            None => "other",
+            Some(p) => {
+                let is_left = p.left == d;
+                let sib = if is_left { p.right } else { p.left };
+                match slot(s, sib) {
+                    None => "black_leaf_no_sibling(!)",
+                    Some(sn) => {
+                        let red = |i: u32| slot(s, i).map(|x| x.red).unwrap_or(false);
+                        if sn.red {
+                            if is_left {
+                                "case2_red_sibling_L"
+                            } else {
+                                "case2_red_sibling_R"
+                            }
+                        } else if !red(sn.left) && !red(sn.right) {
+                            if p.red {
+                                "case3_black_sib_red_parent"
+                            } else {
+                                "case4_black_sib_black_parent"
+                            }
+                        } else {
+                            let far = if is_left { sn.right } else { sn.left };
+                            if red(far) {
+                                if is_left {
+                                    "case6_far_red_L"
+                                } else {
+                                    "case6_far_red_R"
+                                }
+                            } else if is_left {
+                                "case5_near_red_L"
+                            } else {
+                                "case5_near_red_R"
+                            }
+                        }
+                    }
                 }
             }
         }
@@ -264,8 +301,13 @@ pub fn classify_insert(s: &Snap, key: i32) -> &'static str {
         return "root";
     }
     let mut i = s.root;
+    let mut guard = 0usize;
     let (p, left) = loop {
-        let nd = &s.slots[i as usize];
+        guard += 1;
+        let nd = match slot(s, i) {
+            Some(n) if guard <= s.slots.len() + 1 => n,
+            _ => return "black_parent",
+        };
         if key < nd.key {
             if nd.left == E {
                 break (i, true);
@@ -278,17 +320,20 @@ pub fn classify_insert(s: &Snap, key: i32) -> &'static str {
             i = nd.right;
         }
     };
-    let pn = &s.slots[p as usize];
+    let pn = match slot(s, p) {
+        Some(n) => n,
+        None => return "black_parent",
+    };
     if !pn.red {
         return "black_parent";
     }
-    if pn.parent == E {
-        return "case2_red_root_parent";
-    }
-    let g = &s.slots[pn.parent as usize];
+    let g = match slot(s, pn.parent) {
+        Some(g) => g,
+        None => return "case2_red_root_parent",
+    };
     let p_is_left = g.left == p;
     let u = if p_is_left { g.right } else { g.left };
-    if u != E && s.slots[u as usize].red {
+    if slot(s, u).map(|x| x.red).unwrap_or(false) {
         return "case3_red_uncle";
     }
     match (p_is_left, left) {
@@ -301,8 +346,12 @@ pub fn classify_insert(s: &Snap, key: i32) -> &'static str {
 
 pub fn find_key(s: &Snap, key: i32) -> u32 {
     let mut i = s.root;
-    while i != E {
-        let nd = &s.slots[i as usize];
+    let mut guard = 0usize;
+    while let Some(nd) = slot(s, i) {
+        guard += 1;
+        if guard > s.slots.len() + 1 {
+            break;
+        }
         if key == nd.key {
             return i;
         }
